@@ -589,3 +589,45 @@ def loop_overwrites(func):
                     scan(sub)
     scan(func.body)
     return out
+
+
+
+def check_strategies_read_the_name_at_call_time(ctx, rule, clause=''):
+    """Round 8.  A Field object can be renamed after it was compiled: Ref._unpack_using_callable /
+    _pack_with_callable set ``referenced.field_name`` each time a selector hands the field out, and
+    _compile runs once per object (exec_once).  A pack / unpack strategy built as a closure at
+    compile time that captured the *value* of self.field_name keeps the first name for ever: the
+    second Ref served by the same Field object then writes (reads) the first one's attribute"""
+    repo = ctx.repo
+    from .effects import COMPILE_PHASE_NAMES, called_only_from_constructors
+    n = 0
+    found = False
+    for ci in repo.field_classes():
+        for mname, fi in ci.methods.items():
+            if not isinstance(fi.node, ast.FunctionDef):
+                continue
+            if not (mname in COMPILE_PHASE_NAMES or called_only_from_constructors(repo, ci, mname)):
+                continue
+            caps = {}
+            for st in fi.node.body:
+                if isinstance(st, ast.Assign) and len(st.targets) == 1 and isinstance(st.targets[0], ast.Name) and canon(st.value) == 'self.field_name':
+                    caps[st.targets[0].id] = st
+            if not caps:
+                continue
+            for inner in ast.walk(fi.node):
+                if inner is fi.node or not isinstance(inner, (ast.FunctionDef, ast.Lambda)):
+                    continue
+                params = {a.arg for a in inner.args.args + inner.args.kwonlyargs}
+                bound = {x.id for x in ast.walk(inner) if isinstance(x, ast.Name) and isinstance(x.ctx, ast.Store)}
+                if 'pkt' not in params and 'packet' not in params:
+                    continue
+                n += 1
+                uses = [x for x in ast.walk(inner) if isinstance(x, ast.Name) and isinstance(x.ctx, ast.Load) and x.id in caps and x.id not in params and x.id not in bound]
+                if uses:
+                    found = True
+                    nm = getattr(inner, 'name', '<lambda>')
+                    ctx.violation(rule, fi, '%s: %s = self.field_name captured by %s' % (fi.qual, uses[0].id, nm),
+                                  'the strategy built at compile time keeps the name the field had then; a Field handed out by a Ref selector is renamed on every use (field_name = <the Ref\'s name>) and compiled once, so the second Ref it serves parses into / packs from the first one\'s attribute', uses[0].lineno, clause=clause, witness=True)
+    ctx.unit('compile_time_closures_over_packets', n)
+    if not found:
+        ctx.holds(rule, ('bisturi/field.py', '<field strategies>'), 'no strategy closure captures the value of self.field_name at compile time', 'the attribute written is the name the field has when it is called', 0, clause=clause)
